@@ -60,6 +60,9 @@ type witness struct {
 	EO     evidence.Options
 	Blocks []wBlock
 	Expect string // monitor signature the witness must raise ("" = must stay silent)
+	// Check inspects the committed state at the end of the scenario and returns what is wrong
+	// with it ("" = the expected outcome)
+	Check func(x *allegRun) string
 }
 
 func baseEO(p Params) evidence.Options {
@@ -121,7 +124,9 @@ func txs(fs ...func(g *allegGen) aTx) []func(g *allegGen) aTx { return fs }
 
 func allegWitnesses() []witness {
 	var ws []witness
-	mk := func(name string, nvals int, mod func(p *Params, eo *evidence.Options), expect string, blocks []wBlock) {
+	addr := func(x *allegRun, i int) string { return hex.EncodeToString(x.w.Vals[i].Key.Addr) }
+	owner := func(x *allegRun, i int) string { return hex.EncodeToString(x.w.Vals[i].Owner.Addr) }
+	mk := func(name string, nvals int, mod func(p *Params, eo *evidence.Options), check func(x *allegRun) string, blocks []wBlock) {
 		p := SmallParams(uint64(7000 + len(ws)))
 		p.NVals, p.NCandidates, p.NAccts, p.TopValidators, p.MinSelfDeleg, p.StakeMaturity = nvals, 1, 2, int64(nvals), 5, 1
 		p.BlockVotesDiff, p.MinVotesReq, p.ReleaseTimeDays = 2, 1, 0
@@ -131,37 +136,85 @@ func allegWitnesses() []witness {
 			mod(&p, &eo)
 			eo.MinVotesRequired, eo.BlockVotesDiff, eo.ValidatorReleaseTime = p.MinVotesReq, p.BlockVotesDiff, p.ReleaseTimeDays
 		}
-		ws = append(ws, witness{name, p, eo, blocks, expect})
+		ws = append(ws, witness{name, p, eo, blocks, "", check})
 	}
-	// S25: validator 0 votes yes while active, leaves the active set, then one more yes vote
-	// convicts validator 3 although only one currently active validator voted yes (required 2)
-	mk("s25-vote-of-departed-validator-counts", 4, nil, "verdict-counts-votes-of-no-longer-active-validators", []wBlock{
+	// regression scenarios: the seven witnesses of the defects this check found (all repaired);
+	// each must stay silent and end in the repaired outcome.
+	// (6709f41) validator 0 votes yes while active, leaves the active set, then one more yes vote:
+	// only one currently active validator voted yes (required 2) - no verdict
+	mk("s25-vote-of-departed-validator-counts", 4, nil, func(x *allegRun) string {
+		if x.cst.Reqs["w1"] == nil || x.cst.isFrozen(addr(x, 3)) {
+			return fmt.Sprintf("the vote of the departed validator decided: request %+v, accused frozen %v", x.cst.Reqs["w1"], x.cst.isFrozen(addr(x, 3)))
+		}
+		return ""
+	}, []wBlock{
 		{}, {}, {Txs: txs(wAllege(0, 3, "w1"), wVote(0, "w1", 1))}, {Txs: txs(wUnstake(0, 9))}, {}, {}, {Txs: txs(wVote(1, "w1", 1))}, {}})
-	// float64: 1 - 80/100 = 0.19999999999999996 < 1/5, so ONE no vote of five required acquits
+	// (1d3139c) share 80/100, five required: ONE no vote is exactly 20 %, not more - no verdict
 	mk("innocent-at-exact-share", 5, func(p *Params, eo *evidence.Options) {
 		eo.AllegationPercentage, eo.ValidatorVotePercentage = 80, 100
-	}, "innocent-verdict-at-exactly-the-share-float-rounding", []wBlock{
+	}, func(x *allegRun) string {
+		if q := x.cst.Reqs["w2"]; q == nil || len(q.Votes) != 1 {
+			return fmt.Sprintf("one no vote of five required decided the request: %+v", q)
+		}
+		return ""
+	}, []wBlock{
 		{}, {}, {Txs: txs(wAllege(0, 4, "w2"), wVote(1, "w2", 2))}, {}})
-	// a verdict before the chain is BlockVotesDiff blocks old: the frozen validator is elected again
+	// (7eb2406) a verdict before the chain is BlockVotesDiff blocks old: the frozen validator is out at once
 	mk("frozen-elected-inside-first-window", 4, func(p *Params, eo *evidence.Options) { p.BlockVotesDiff = 5 },
-		"frozen-validator-elected-inside-first-votes-window", []wBlock{
+		func(x *allegRun) string {
+			if !x.cst.isFrozen(addr(x, 3)) || x.cst.isActive(addr(x, 3)) {
+				return fmt.Sprintf("convicted validator: frozen %v active %v", x.cst.isFrozen(addr(x, 3)), x.cst.isActive(addr(x, 3)))
+			}
+			return ""
+		}, []wBlock{
 			{}, {}, {Txs: txs(wAllege(0, 3, "w3"), wVote(0, "w3", 1), wVote(1, "w3", 1), wVote(2, "w3", 1))}, {}, {}, {}, {}})
-	// the stake account of a frozen validator withdraws matured stake by naming a non-validator address
-	mk("frozen-withdraws-via-foreign-address", 4, nil, "frozen-validator-withdrew-naming-another-validator-address", []wBlock{
+	// (df2e1ab) the stake account of a frozen validator names a non-validator address: refused
+	mk("frozen-withdraws-via-foreign-address", 4, nil, func(x *allegRun) string {
+		if b := x.cst.DB[owner(x, 3)]; b == nil || b.Int64() != 3 {
+			return fmt.Sprintf("matured stake of the frozen validator's account is %v, expected the untouched 3", b)
+		}
+		return ""
+	}, []wBlock{
 		{}, {Txs: txs(wUnstake(3, 3))}, {}, {Txs: txs(wAllege(0, 3, "w4"), wVote(0, "w4", 1), wVote(1, "w4", 1), wVote(2, "w4", 1))}, {},
 		{Txs: txs(wWithdraw(3, 1, -1), wStake(3, 1), wUnstake(3, 1))}, {Txs: txs(wWithdraw(3, 2, 0))}, {}})
-	// a guilty validator that also misses votes is re-recorded as a missed-votes case, which has no release time
+	// (92417eb) frozen for missed votes by the BeginBlock of this very block (the record is only in the
+	// block cache): the stake account naming a non-validator address is refused in that block already
+	mk("withdraw-in-block-of-missed-votes-freeze", 4, func(p *Params, eo *evidence.Options) {
+		p.BlockVotesDiff, p.MinVotesReq = 3, 2
+	}, func(x *allegRun) string {
+		s := x.cst.Susp[addr(x, 3)]
+		if b := x.cst.DB[owner(x, 3)]; s == nil || s.Status != 1 || s.FH != 6 || b == nil || b.Int64() != 3 {
+			return fmt.Sprintf("record %+v (expected missed-votes record of height 6), matured stake %v (expected the untouched 3)", s, b)
+		}
+		return ""
+	}, []wBlock{
+		{}, {Txs: txs(wUnstake(3, 3))}, {}, {}, {Absent: []int{3}}, {Absent: []int{3}, Txs: txs(wWithdraw(3, 2, 0))}, {}})
+	// (73dca0f) a guilty validator that also misses votes keeps its byzantine-fault record: no early release
 	mk("guilty-overwritten-by-missed-votes", 4, func(p *Params, eo *evidence.Options) {
 		p.BlockVotesDiff, p.MinVotesReq, p.ReleaseTimeDays = 3, 2, 1
-	}, "guilty-record-overwritten-by-missed-votes-then-released-early", []wBlock{
+	}, func(x *allegRun) string {
+		if s := x.cst.Susp[addr(x, 3)]; s == nil || s.Status != 2 || !s.frozen() {
+			return fmt.Sprintf("record of the convicted validator: %+v", s)
+		}
+		return ""
+	}, []wBlock{
 		{}, {}, {}, {Txs: txs(wAllege(0, 3, "w5"))}, {Absent: []int{3}, Txs: txs(wVote(0, "w5", 1), wVote(1, "w5", 1), wVote(2, "w5", 1))},
 		{Absent: []int{3}}, {Absent: []int{3}, Txs: txs(wRelease(3))}, {}})
-	// an allegation under the EMPTY request id: CleanTracker's id list starts with len(tracker) empty
-	// strings, so the request is its own duplicate and is deleted before the votes are counted
-	mk("empty-id-request-dropped", 4, nil, "empty-id-request-dropped-by-tracker-cleanup", []wBlock{
+	// (8e5280a) an allegation under the EMPTY request id is decided by its votes like any other
+	mk("empty-id-request-dropped", 4, nil, func(x *allegRun) string {
+		if s := x.cst.Susp[addr(x, 3)]; s == nil || s.Status != 2 || !s.frozen() || x.cst.Reqs[""] != nil {
+			return fmt.Sprintf("three yes votes of four under the empty id: record %+v request %+v", s, x.cst.Reqs[""])
+		}
+		return ""
+	}, []wBlock{
 		{}, {}, {Txs: txs(wAllege(0, 3, ""), wVote(0, "", 1), wVote(1, "", 1), wVote(2, "", 1))}, {}})
 	// control: a plain conviction, early release attempts, release after the day has passed (must stay silent)
-	mk("control-conviction-and-release", 5, func(p *Params, eo *evidence.Options) { p.ReleaseTimeDays = 1 }, "", []wBlock{
+	mk("control-conviction-and-release", 5, func(p *Params, eo *evidence.Options) { p.ReleaseTimeDays = 1 }, func(x *allegRun) string {
+		if x.cst.isFrozen(addr(x, 4)) {
+			return "the convicted validator is still frozen after its release"
+		}
+		return ""
+	}, []wBlock{
 		{}, {}, {Txs: txs(wAllege(0, 4, "w6"), wVote(0, "w6", 1), wVote(1, "w6", 2))}, {Txs: txs(wVote(2, "w6", 1), wVote(2, "w6", 1))},
 		{Txs: txs(wRelease(4), wStake(4, 1), wUnstake(4, 1))}, {Dt: 86390, Txs: txs(wRelease(4))}, {Dt: 20, Txs: txs(wRelease(4), wStake(4, 2))}, {}, {}})
 	return ws
@@ -221,7 +274,14 @@ func runWitness(wn witness, res *Result, c int, hl *HistoryLog) (*allegRun, erro
 			res.Counters["witness-NOT-reproduced:"+wn.Name]++
 		}
 	} else if len(raised) > 0 {
-		res.Hit("control-witness-raised-a-signature", c, fmt.Sprintf("%s: %v", wn.Name, raised), hl.Lines)
+		res.Hit("regression-scenario-raised-a-signature", c, fmt.Sprintf("%s: %v", wn.Name, raised), hl.Lines)
+	}
+	if wn.Check != nil {
+		if msg := wn.Check(x); msg != "" {
+			res.Hit("regression-scenario-wrong-outcome", c, fmt.Sprintf("%s: %s", wn.Name, msg), hl.Lines)
+		} else {
+			res.Counters["regression-scenario-ok:"+wn.Name]++
+		}
 	}
 	return x, nil
 }
